@@ -140,7 +140,8 @@ static void one_execution( const Case& c, const std::vector< int >& pre, bool ve
       return;
    }
    ++vf::st.evaluations;
-   In in( buf.p, buf.p + buf.n, "src" );
+   In in( buf.p, buf.p + buf.n, "src", g_ib, g_il, g_ic );
+   check_positions = S.check_positions;
    const Real r = run_impl( c.cfg, in, S.fuel );
    if( verbose ) {
       printf( "table: %s\ninput: '%s' cfg=%s choices=%s\nimpl: %s pos=%d who=%d msg='%s' byte=%zu line=%zu col=%zu nested=%d\n", show_tab( c.nrules ).c_str(), vf::show( c.input ).c_str(), c.cfg.str().c_str(), X.str().c_str(), real_name( r.kind ), r.pos, r.who, r.msg.c_str(), r.byte, r.line, r.column, int( r.nested ) );
@@ -172,12 +173,13 @@ static void one_execution( const Case& c, const std::vector< int >& pre, bool ve
       std::string cls = j;
       for( auto& ch : cls )
          if( ch >= '0' && ch <= '9' ) ch = '#';
-      report( exc ? S.exc_prop : S.result_prop, cls, c, j );
+      report( exc ? S.exc_prop : S.result_prop, S.check_positions ? "match result differs from the reference (rule outcome depends on a position counter): " + cls : cls, c, j );
    }
    // ---- online monitors
    if( L.c02 ) report( "C02", strip_ns( L.c02_msg ), c );
    if( L.c03 ) report( "C03", strip_ns( L.c03_msg ), c );
    if( L.c04 ) report( "C04", strip_ns( L.c04_msg ), c );
+   if( L.c06 ) report( "C06", strip_ns( L.c06_msg ) + ( ( g_ib | ( g_il - 1 ) | ( g_ic - 1 ) ) ? "|non-default initial counters" : "|default counters" ), c, L.c06_info );
    // ---- surviving action log (C04)
    if( S.check_actions && r.kind == Real::OK && o.k == R::OK ) {
       std::vector< std::array< int, 3 > > want;
@@ -249,10 +251,15 @@ static void apply_flags( const std::string& f )
    act_may_throw = atoi( v[ 2 ].c_str() );
    X.bound = atoi( v[ 3 ].c_str() );
    hole_bounded = atoi( v[ 4 ].c_str() );
+   if( v.size() >= 8 ) {
+      g_ib = size_t( atol( v[ 5 ].c_str() ) );
+      g_il = size_t( atol( v[ 6 ].c_str() ) );
+      g_ic = size_t( atol( v[ 7 ].c_str() ) );
+   }
 }
 static std::string flags_str()
 {
-   return std::to_string( int( hole_may_throw ) ) + "," + std::to_string( int( act_may_veto ) ) + "," + std::to_string( int( act_may_throw ) ) + "," + std::to_string( X.bound ) + "," + std::to_string( int( hole_bounded ) );
+   return std::to_string( int( hole_may_throw ) ) + "," + std::to_string( int( act_may_veto ) ) + "," + std::to_string( int( act_may_throw ) ) + "," + std::to_string( X.bound ) + "," + std::to_string( int( hole_bounded ) ) + "," + std::to_string( g_ib ) + "," + std::to_string( g_il ) + "," + std::to_string( g_ic );
 }
 
 int main( int argc, char** argv )
@@ -303,13 +310,18 @@ int main( int argc, char** argv )
          for( unsigned i = n; i < K; ++i ) tab[ i ] = { FAILURE, 0, 0, 0 };
          exec_in_prog = 0;
          for( const auto& s : inputs ) {
-            for( const auto& cfg : ph.cfgs ) {
-               Case c;
-               c.nrules = n;
-               c.input = s;
-               c.cfg = cfg;
-               c.flags = flags_str();
-               explore_case( c );
+            for( const auto& ctr : ph.counters ) {
+               g_ib = ctr[ 0 ];
+               g_il = ctr[ 1 ];
+               g_ic = ctr[ 2 ];
+               for( const auto& cfg : ph.cfgs ) {
+                  Case c;
+                  c.nrules = n;
+                  c.input = s;
+                  c.cfg = cfg;
+                  c.flags = flags_str();
+                  explore_case( c );
+               }
             }
          }
       } );
